@@ -16,7 +16,7 @@ import h5py
 import numpy as np
 
 from ..sim import gen_sched, HarnessError
-from ..util import A, L, Result, sig6, rel_diff, random_composition
+from ..util import A, L, Result, sig6, rel_diff, random_composition, is_harness_bug
 from .common import SimRec, gen_simplex, trim, tail
 
 ID = "C17"
@@ -85,6 +85,8 @@ def gen_case(rng, tier):
     variances = sig6(rs.uniform(0.5, 2.0, size=(c, d)) * scale2)
     probe = sig6(rs.randn(5, d) * 2.5 * scale)
     n_ops = rng.randint(3, 25 if tier == "thorough" else 14)
+    if rng.random() < 0.05:
+        n_ops = rng.randint(40, 90)  # a machine that lives for a long time
     ops = []
     for _ in range(n_ops):
         name = rng.choice(OPS)
@@ -315,7 +317,9 @@ def run_case(case, replay=None):
                         try:
                             setattr(m, _ATTR[name], bad)
                             rec.probe("wrong_shape_assignment_accepted")
-                        except Exception:
+                        except Exception as _e:
+                            if is_harness_bug(_e):
+                                raise HarnessError(f"harness bug: {_e!r}")
                             rec.probe("wrong_shape_assignment_raised")
                             rec.faults["F10_rejected_call"] = rec.faults.get("F10_rejected_call", 0) + 1
                     if name == "set_weights":
@@ -545,6 +549,8 @@ def run_case(case, replay=None):
             except HarnessError:
                 raise
             except Exception as e:
+                if is_harness_bug(e):
+                    raise HarnessError(f"harness bug: {e!r}")
                 return Result.violation("operation-raises", {"after_op": i, "op": name,
                                                              "exception": repr(e)[:300]},
                                         **rec.fields())
